@@ -1815,3 +1815,10 @@ package raft
 //@              cast(result0, *FileSnapshotSink).meta.ConfigurationIndex == configurationIndex && cast(result0, *FileSnapshotSink).meta.Version == version &&
 //@              cast(result0, *FileSnapshotSink).store == f && cast(result0, *FileSnapshotSink).parentDir == f.path && cast(result0, *FileSnapshotSink).noSync == f.noSync && !cast(result0, *FileSnapshotSink).closed
 //@   ensures  nothing_visible_yet: renames == old(renames) && removals == old(removals)
+
+// C17: GetConfiguration never waits for a run loop: the future it returns is already answered, without error
+//@ func (r *Raft) GetConfiguration
+//@   requires nonnil: r != nil
+//@   localonly
+//@   ensures  answered_at_once: typeis(result, *configurationsFuture) && cast(result, *configurationsFuture).responded && cast(result, *configurationsFuture).errCh != nil &&
+//@              lastsent(cast(result, *configurationsFuture).errCh) == nil && isfresh(cast(result, *configurationsFuture))
